@@ -24,9 +24,9 @@ MIX = {
     'C01': [('random', 4), ('tie', 1), ('quota', 1), ('coalition', 1), ('chain', 1), ('bullet', 2), ('exact', 1), ('sparse', 2), ('bigm', 1), ('unanimous', 1), ('thirds', 1), ('writein', 2)],
     'C02': [('random', 3), ('chain', 3), ('quota', 1), ('bigm', 2), ('sparse', 1), ('neartie', 1), ('unanimous', 1), ('sliver', 2)],
     'C04': [('quota', 3), ('exact', 3), ('random', 2), ('tie', 1), ('sparse', 1), ('bigm', 1), ('thirds', 2)],
-    'C05': [('coalition', 4), ('random', 2), ('unanimous', 1), ('sparse', 1), ('hiddenpartner', 2)],
+    'C05': [('coalition', 4), ('random', 2), ('unanimous', 1), ('sparse', 1), ('hiddenpartner', 2), ('coalsurplus', 3)],
     'C06': [('chain', 3), ('random', 3), ('quota', 1), ('bigm', 1), ('sparse', 3), ('surplustie', 1), ('neartie', 2), ('thirds', 2), ('sliver', 1)],
-    'C07': [('tie', 3), ('prior', 2), ('reversal', 1), ('surplustie', 2), ('writein', 2), ('random', 2), ('quota', 1), ('bullet', 1), ('coalition', 1), ('sparse', 1), ('neartie', 1)],
+    'C07': [('tie', 3), ('prior', 2), ('reversal', 1), ('surplustie', 2), ('writein', 2), ('random', 2), ('quota', 1), ('bullet', 1), ('coalition', 1), ('sparse', 1), ('neartie', 1), ('coalsurplus', 1)],
     'C08': [('random', 4), ('tie', 1), ('quota', 1), ('unanimous', 1)],
     'C09': [('random', 4), ('tie', 1), ('coalition', 1), ('bullet', 2), ('exact', 1), ('sparse', 2), ('thirds', 1), ('hiddenpartner', 1), ('writein', 2)],
     'C18': [('random', 4), ('tie', 1), ('quota', 1), ('sparse', 1), ('writein', 1)],
